@@ -167,6 +167,7 @@ func (t *Tokenizer) Reset() {
 	t.line = 0
 	t.skippedComment = false
 	t.colCacheValid = false
+	t.codeCacheValid = false
 
 	// Don't reset keywords as they're constant
 	t.logger = nil
